@@ -59,10 +59,13 @@ class Contract:
     harness_module: str | None = None              # repository module whose names the harness sees
     inline_in_harness: bool = False                # callers inside a harness execute this function's real body
     float_model: str = "exact"                     # 'exact' | 'ieee': total_seconds() etc. with relative error 2**-53
+    seq_lemmas: bool = False                       # state list.append element-wise as well (helps quantified index invariants)
+    covers: dict = field(default_factory=dict)     # name -> post-state condition that must be REACHABLE on some normal return
     bounded: str | None = None                     # name of a bounded stand-in (replaylib/bounded.py); implies not proved
     setup: object = None                           # callable(ip, env): installs concrete parts of the pre-state (representation)
-    variants: dict = field(default_factory=dict)       # variant name -> binds override: the body is verified once per variant
+    variants: dict = field(default_factory=dict)       # variant name -> binds override (+ '__override__': contract fields): the body is verified once per variant
     clause_props: dict = field(default_factory=dict)   # obligation-name glob -> properties it belongs to (default: all of serves)
+    active_variant: str | None = None         # set by the runner while a variant of this contract is being verified / applied
     result_expr: str | None = None            # the result is this (existing) value, not a fresh one
     fresh: dict = field(default_factory=dict)      # name -> (type string, witness expr): values created by the function
 
